@@ -15,11 +15,21 @@ func C17_dialer_results() {
 	for _, c := range par {
 		vAssume(vIn(c, '0', '9'))
 	}
-	d := Dialer{Protocols: []string{"chat", "other"}, Extensions: []httphead.Option{httphead.NewOption("ext-a", nil)}}
+	// the accepted extensions arrive on one header line or spread over two (RFC 6455 allows both)
+	layout := vChoose("layout", 3)
+	d := Dialer{Protocols: []string{"chat", "other"}, Extensions: []httphead.Option{httphead.NewOption("ext-a", nil), httphead.NewOption("ext-b", nil)}}
 	srv := &vServer{}
 	srv.resp = func(key []byte) []byte {
 		b := []byte("HTTP/1.1 101 Switching Protocols\r\nUpgrade: websocket\r\nConnection: Upgrade\r\nSec-WebSocket-Accept: " + string(vAccept(key)) + "\r\nSec-WebSocket-Protocol: other\r\nSec-WebSocket-Extensions: ext-a; p=")
 		b = append(b, par...)
+		switch layout {
+		case 1:
+			b = append(b, "\r\nSec-WebSocket-Extensions: ext-b; q="...)
+			b = append(b, par[1], par[0])
+		case 2:
+			b = append(b, ", ext-b; q="...)
+			b = append(b, par[1], par[0])
+		}
 		return append(b, "\r\n\r\n"...)
 	}
 	_, hs, err := d.Upgrade(srv, &url.URL{Scheme: "ws", Host: "h", Path: "/"})
@@ -29,10 +39,18 @@ func C17_dialer_results() {
 		return
 	}
 	vAssert(hs.Protocol == "other", "alias.dial_protocol_survives_pool_reuse")
-	vAssert(len(hs.Extensions) == 1, "alias.dial_extension_count")
-	if len(hs.Extensions) != 1 {
+	want := 1
+	if layout != 0 {
+		want = 2
+	}
+	vAssert(len(hs.Extensions) == want, "alias.dial_extension_count")
+	if len(hs.Extensions) != want {
 		return
 	}
 	v, ok := hs.Extensions[0].Parameters.Get("p")
 	vAssert(vAnd(vEqBytes(hs.Extensions[0].Name, []byte("ext-a")), vAnd(ok, vEqBytes(v, par))), "alias.dial_extensions_survive_pool_reuse")
+	if want == 2 {
+		v, ok := hs.Extensions[1].Parameters.Get("q")
+		vAssert(vAnd(vEqBytes(hs.Extensions[1].Name, []byte("ext-b")), vAnd(ok, vEqBytes(v, []byte{par[1], par[0]}))), "alias.dial_second_extension_survives_pool_reuse")
+	}
 }
